@@ -227,7 +227,8 @@ func c10Server(r *Rng) string {
 }
 
 func c10Gen(g *Gen) {
-	r := g.Rng
+	// a well-mixed sub-stream: the framework's seeds are shifted copies of one splitmix stream
+	r := NewRng(g.Rng.U64())
 	n := g.N(4000, 150000)
 	for i := 0; i < n; i++ {
 		var lines []string
